@@ -350,9 +350,24 @@ def classify_accept_exc(e):
     return ["other", type(e).__name__, [describe_leaf(x) for x in leaves]]
 
 
+class BadRepr(object):
+    """an argument that cannot be printed"""
+
+    def __repr__(self):
+        raise RuntimeError("this object has no printable form")
+
+    def __eq__(self, other):
+        return isinstance(other, BadRepr)
+
+    def __hash__(self):
+        return 7
+
+
 def decode_arg(v):
     if isinstance(v, list):
         return tuple(decode_arg(x) for x in v)
+    if v == "\u00a7badrepr":
+        return BadRepr()
     return v
 
 
@@ -363,6 +378,8 @@ def decode_args(vs):
 def encode_arg(v):
     if isinstance(v, tuple):
         return [encode_arg(x) for x in v]
+    if isinstance(v, BadRepr):
+        return "\u00a7badrepr"
     return v
 
 
@@ -445,6 +462,19 @@ async def run_async(ctx, key, spec, args, kwargs=None, executed=False):
                 ctx.do_service(who, st[1])
             elif op == "section":
                 section(fl, key, st[1])
+            elif op == "park":
+                # suspended on an awaitable nothing else references (the run-forever idiom of a service that waits
+                # for an event of its own): only the runtime keeps such a payload alive
+                if fl == "trio":
+                    await trio.sleep_forever()
+                else:
+                    await asyncio.get_running_loop().create_future()
+            elif op == "shutdown_via_thread":
+                # a coroutine payload stops the runtime without blocking its loop: the blocking call runs in a worker thread
+                if fl == "trio":
+                    await trio.to_thread.run_sync(ctx.do_shutdown, ["helper", 90 + key[1]], st[1])
+                else:
+                    await asyncio.get_running_loop().run_in_executor(None, ctx.do_shutdown, ["helper", 90 + key[1]], st[1])
             elif op == "forever":
                 while True:
                     await sleep(3600)
@@ -528,6 +558,8 @@ def run_sync(ctx, key, spec, args, kwargs=None, executed=False):
             ctx.do_shutdown(who, st[1])
         elif op == "section":
             section(fl, key, st[1])
+        elif op == "park":
+            threading.Event().wait()
         elif op == "forever":
             threading.Event().wait()
         elif op == "return":
@@ -590,23 +622,27 @@ def make_payload(ctx, pid, executed=False):
         async def payload(*args, **kwargs):
             return await run_async(ctx, ("p", pid), spec, args, kwargs, executed)
     payload.__name__ = "payload_%d" % pid
-    return shaped(payload, spec.get("shape"), spec["flavour"] != "threading")
+    return shaped(payload, spec.get("shape"), spec["flavour"] != "threading", lambda: log("Call", "p", pid))
 
 
-def shaped(fn, shape, is_async):
+def shaped(fn, shape, is_async, on_call=lambda: None):
     """the same payload as another kind of callable: anything that can be called without arguments and, for
     the coroutine flavours, returns an awaitable is a payload"""
     import functools
     if not shape or shape == "plain":
         return fn
+    if shape == "nomodule":           # e.g. a function compiled with exec() in a bare namespace: no __module__
+        fn.__module__ = None
+        return fn
     if shape == "wrapped":            # a coroutine function behind an ordinary decorator
         @functools.wraps(fn)
         def wrapper(*args, **kwargs):
+            on_call()                 # the synchronous part of the payload: runs wherever the payload is CALLED
             return fn(*args, **kwargs)
         del wrapper.__wrapped__
         return wrapper
     if shape == "lambda":
-        lam = lambda *args, **kwargs: fn(*args, **kwargs)      # noqa: E731
+        lam = lambda *args, **kwargs: (on_call(), fn(*args, **kwargs))[1]      # noqa: E731
         lam.__name__ = fn.__name__
         return lam
     if shape == "object":
@@ -682,6 +718,17 @@ def run_program(ctx, who, prog):
             ctx.do_accept(who, st[1])
         elif op == "shutdown":
             ctx.do_shutdown(who, st[1])
+        elif op == "gc":
+            gc.collect()
+        elif op == "shutdown_idle":
+            # shutdown() of a runtime that is not running (never started, or its run has ended): a harmless no-op
+            # for the caller, e.g. belt-and-braces cleanup; not an event of the model (nothing is running)
+            if st[1] not in ctx.accepting:
+                try:
+                    ctx.runners[st[1]].shutdown()
+                    log("IdleShutdown", who, st[1], "ok")
+                except BaseException as e:  # noqa
+                    log("IdleShutdown", who, st[1], "raised:%s" % type(e).__name__)
         elif op == "sigint":
             log("Sigint", who)
             send_sigint()
